@@ -115,7 +115,8 @@ class Codec:
 # datetime clock (HistoricalScheduler).  `clock()` reads the scheduler's time in virtual-time units.
 class Meter:
     """How many inner subscriptions are open at the same moment, at sub-instant resolution: an inner counts from its
-    subscribe() until its terminal notification is delivered or it is unsubscribed, whichever comes first."""
+    subscribe() until it is unsubscribed (dispose() of what subscribe() returned) - or, when it delivers its terminal
+    notification while still inside its own subscribe() call (nothing to dispose exists yet), until that notification."""
 
     def __init__(self):
         self.cur = 0
@@ -146,6 +147,7 @@ def make_log_cold(scheduler, messages, sync0: bool, clock, meter=None):
             self.subscriptions.append(entry)
             disp = CompositeDisposable()
             tok = meter.open() if meter else None
+            inside = [True]     # still inside this subscribe() call
 
             def dispose() -> None:
                 entry.unsubscribe = clock()
@@ -154,8 +156,8 @@ def make_log_cold(scheduler, messages, sync0: bool, clock, meter=None):
                 disp.dispose()
 
             def deliver(notification):
-                if meter and notification.kind != "N":
-                    meter.close(tok)    # the inner sequence is over from here on
+                if meter and notification.kind != "N" and inside[0]:
+                    meter.close(tok)    # over before subscribe() returned: there is nothing the subscriber could dispose yet
                 notification.accept(observer)
 
             def later(notification):
@@ -169,6 +171,7 @@ def make_log_cold(scheduler, messages, sync0: bool, clock, meter=None):
                     deliver(n)
                 else:
                     disp.add(scheduler.schedule_relative(t, later(n)))
+            inside[0] = False
             return Disposable(dispose)
 
     return LogColdObservable()
@@ -183,13 +186,10 @@ def make_log_hot(scheduler, messages, clock, meter=None):
             super().__init__()
             self.subscriptions: List[Any] = []
             self.observers: List[Any] = []
-            self.tokens: Dict[int, Any] = {}
 
             def fire(notification):
                 def action(_s, _st=None):
                     for o in self.observers[:]:
-                        if meter and notification.kind != "N" and id(o) in self.tokens:
-                            meter.close(self.tokens[id(o)])
                         notification.accept(o)
                     return Disposable()
                 return action
@@ -202,7 +202,6 @@ def make_log_hot(scheduler, messages, clock, meter=None):
             entry = _Sub(clock())
             self.subscriptions.append(entry)
             tok = meter.open() if meter else None
-            self.tokens[id(observer)] = tok
 
             def dispose() -> None:
                 self.observers.remove(observer)
@@ -319,6 +318,9 @@ def run_scenario(scn: Dict[str, Any], *, outer: str, profile: str, inner_first: 
         return None
     if resub and resub.endswith("free2") and dsp == NEVER:
         return None
+    fb = scn.get("fb", 0)
+    if fb and (not outer_hot or resub or form != "pipe"):
+        return None  # the fed-back inner is pushed through the subscribers of a hot outer source
     off = 0 if not resub else (OVERLAP_OFFSET if resub.startswith("overlap") else RESUB_OFFSET)
     ni = len(tab)
     cod = Codec(tab, profile, salt)
@@ -456,9 +458,19 @@ def run_scenario(scn: Dict[str, Any], *, outer: str, profile: str, inner_first: 
     rec1: List[Tuple[float, str, Any]] = []
     holder: Dict[str, Any] = {}
 
+    def sink_next(into):
+        def on_next(v):
+            into.append((w.now(), "N", v))
+            if fb and sum(1 for r in into if r[1] == "N") == fb:
+                # feedback: from inside this notification the outer delivers one more inner to whoever listens to it
+                val = cod.tok[scn["fbv"]] if mapped else inners[scn["fbv"]]
+                for o in list(xs.observers):
+                    o.on_next(val)
+        return on_next
+
     def subscriber(into, key):
         def go():
-            holder[key] = ys.subscribe(on_next=lambda v: into.append((w.now(), "N", v)),
+            holder[key] = ys.subscribe(on_next=sink_next(into),
                                        on_error=lambda e: into.append((w.now(), "E", e)),
                                        on_completed=lambda: into.append((w.now(), "C", None)), scheduler=w.s)
         return go
@@ -507,7 +519,9 @@ def run_scenario(scn: Dict[str, Any], *, outer: str, profile: str, inner_first: 
     if resub:
         s1, o1 = logs(False)
         first = {"out": decode(rec1, 0), "subs": s1, "osub": o1, "escaped": None if escaped is None else repr(escaped)}
-    peak = w.meter.peak if (w.metered and logged and not resub) else None
+    # fed-back arrivals can replace an inner that is still inside its own subscribe(): what "open" means then is not
+    # something the sources can observe - peak not compared there
+    peak = w.meter.peak if (w.metered and logged and not resub and not fb) else None
     return {"out": out, "subs": subs, "osub": osub, "escaped": None if escaped is None else repr(escaped), "calls": calls,
             "first": first, "peak": peak}
 
@@ -645,7 +659,7 @@ def judge(scn: Dict[str, Any], allowed: List[Dict[str, Any]], variant: Dict[str,
 
 # ---- drivers shared by C11 / C12 -------------------------------------------------------------------
 BASE = dict(Ops=set(), MCs={1, 2}, Tabs={"plain"}, Flavours={"cold"}, MaxOuter=3, OTimes={1, 2, 3}, OTermTimes={1, 2, 3, 5},
-            OTerms={"C", "E", "U"}, DspTicks=set(), Takes=set(), Faults=False, FAll=False, RG=True, GenN=2, GenLen=2, GenTimes={0, 1},
+            OTerms={"C", "E", "U"}, DspTicks=set(), Takes=set(), Fbs=set(), Faults=False, FAll=False, RG=True, GenN=2, GenLen=2, GenTimes={0, 1},
             Lazy=False, Slices={"cfg"})
 
 
@@ -687,6 +701,9 @@ def variants_for(scn, profiles=("plain",), light=False):
     s = len(json.dumps(scn, sort_keys=True))
     zero = any(ev["t"] == 0 for ev in scn["outer"])
     prof = lambda n: profiles[(s + n) % len(profiles)]
+    if scn.get("fb"):
+        return [dict(outer="hot", profile=prof(0), inner_first=True, form="pipe", salt=s % 7),
+                dict(outer="hot", profile=prof(1), inner_first=False, form="pipe", salt=s % 5, own=True)][:(1 if light else 2)]
     if scn["op"] == "merge_srcs":
         vs = [dict(outer="cold", profile=prof(0), inner_first=True, form="pipe", salt=s % 7),
               dict(outer="cold", profile=prof(1), inner_first=True, form="factory", salt=s % 5,
